@@ -126,6 +126,15 @@ VERUS = [dict(
         // ... and otherwise every satisfying pair survives in the shrunk intervals, which only shrink
         r->Ok_0 is Some ==> forall|a: int, b: int| #[trigger] pair_in(*left, *right, a, b) && in_i64(a) && in_i64(b) && sat_gt(a, b, strict)
                                 ==> contains(r->Ok_0->Some_0.0, a) && contains(r->Ok_0->Some_0.1, b),"""),
+        dict(file=FI, path=[II, "fn contains"], wrap=II, ret="r",
+             edits=_GEN + [dict(rule="R13", regex=r"(lhs|rhs)_owned\.as_ref\(\)\.unwrap_or\((self|rhs)\)", replace=r"owned_or(&\1_owned, \2)", count=2)],
+             contract="""    requires num_iv(*self), num_iv(*other),
+    ensures r is Ok, bool_iv(r->Ok_0),
+        // certainly contained only if every value of `other` lies in `self`; certainly not only if they share no value
+        iv_mask(r->Ok_0) == 4 ==> forall|x: int| #[trigger] contains(*other, x) ==> contains(*self, x),
+        iv_mask(r->Ok_0) == 1 ==> forall|x: int| !(#[trigger] contains(*self, x) && contains(*other, x)),""",
+             proofs=[dict(at="body_start", text="""
+        proof { lemma_named_sets(); }""")]),
         dict(file=FI, path=[II, "fn and"], wrap=II, ret="r", edits=_GEN,
              contract="""    requires bool_iv(*self), bool_iv(*other),
     ensures r is Ok, bool_iv(r->Ok_0), exact2(|a: int, b: int| and3(a, b), iv_mask(*self), iv_mask(*other), iv_mask(r->Ok_0)),"""),
@@ -208,6 +217,7 @@ VERUS = [dict(
         dict(name="propagate_right_upper_two_steps", item="satisfy_greater", find="prev_value(left.upper)", replace="prev_value(prev_value(left.upper))"),
         dict(name="propagate_touching_is_infeasible_when_non_strict", item="satisfy_greater", find="if !strict && left.upper == right.lower {", replace="if strict && left.upper == right.lower {"),
         dict(name="propagate_new_left_lower_from_right_upper", item="satisfy_greater", find="        } else {\n            right.lower\n        }", replace="        } else {\n            right.upper\n        }"),
+        dict(name="contains_true_on_any_overlap", item="contains", find="Ok(Self::TRUE_OR_FALSE)", replace="Ok(Self::TRUE)"),
         dict(name="is_true_ignores_unknown", item="is_true", find="(true, false, false) => Ok(Self::TRUE),", replace="(true, false, _) => Ok(Self::TRUE),"),
         dict(name="is_unknown_inverted", item="is_unknown", find="(_, _, false) => Ok(Self::FALSE),", replace="(_, _, false) => Ok(Self::TRUE),"),
         dict(name="maybe_null_reported_not_null", item="is_true_false_unknown", find="?,\n                true,\n            ),", replace="?,\n                false,\n            ),"),
